@@ -205,6 +205,23 @@ def _br_of(fn, icmp):
     raise AnalysisBroken("comparison at %s does not feed a branch" % icmp.loc())
 
 
+def r2_object(ctx):
+    """the size check and the conversions read as many bytes as the PDU claims to have: they must be given the receive buffer"""
+    pdb = ctx.pdb
+    n = 0
+    for callee in ("rtr_pdu_check_size", "rtr_pdu_footer_to_host_byte_order"):
+        for c in pdb.callers(callee):
+            f = c.fn
+            if f.name != "rtr_receive_pdu":
+                continue
+            n += 1
+            e = vf.expr(f, c.args[0])
+            ctx.check(e == ("arg", 1), "C04.R2", "%s:applied-to-the-receive-buffer" % callee, c.loc(),
+                      "%s(%s): reads up to the PDU's own length fields, which only the caller's %d-byte buffer can hold" % (callee, vf.show(e), MAXPDU),
+                      key="C04.R2:%s:object" % callee)
+    ctx.floor("C04.R2", n, 2)
+
+
 def r3_convert(ctx):
     """Error Report conversion: the encapsulated length is an offset into the buffer, so it must be in host order when used"""
     pdb = ctx.pdb
@@ -705,6 +722,7 @@ def check(ctx):
     retsets = flow.return_sets(ctx.pdb)
     r1(ctx, retsets)
     r2_r3(ctx)
+    r2_object(ctx)
     r3_convert(ctx)
     r4(ctx, retsets)
     r5(ctx, retsets)
